@@ -273,9 +273,11 @@ func c08profile(c *Ctx, fn *ssa.Function) {
 				})
 				bad := ""
 				for _, ret := range reach.Returns() {
-					for _, l := range an.Sources(ret.Results[0], nil) {
-						if l == ssa.Value(al) {
-							bad = c.InstrPos(ret)
+					for _, alt := range reach.Alts(ret) {
+						for _, l := range an.Sources(alt.Results[0], nil) {
+							if l == ssa.Value(al) {
+								bad = c.InstrPos(ret)
+							}
 						}
 					}
 				}
